@@ -108,6 +108,7 @@ DEFAULT_PROFILE: dict[str, Any] = {
     "component_unions": False,      # top-level union / array component schemas (forward references inside them)
     "multipart_const": True,        # was a C06 crash (fixed); switch kept for the regression replay
     "prefix_items": False,          # tuple-like arrays written with 3.1 prefixItems (+ items)
+    "quote_enum_values": False,     # string enum values containing quote characters, braces, backticks
 }
 
 
@@ -119,6 +120,7 @@ def profile(**over) -> dict:
 
 # ------------------------------------------------------------------------------------------ schema strategies
 
+ENUM_QUOTED_VALUES = ['say "hi"', "it's", '27"', "a'b\"c", "{x}", "`tick`"]   # quotes are data too (models only: not placed in URLs)
 ENUM_STR_VALUES = ["aa", "bb", "cc", "dd-ee", "ff gg", "Hh", "i1", "9z", "", "jj_kk"]
 
 
@@ -126,7 +128,8 @@ ENUM_STR_VALUES = ["aa", "bb", "cc", "dd-ee", "ff gg", "Hh", "i1", "9z", "", "jj
 def enum_ir(draw, prof, allow_null=True):
     base = draw(st.sampled_from(["str", "int"] if prof["int_enum"] else ["str"]))
     if base == "str":
-        vals = draw(st.lists(st.sampled_from(ENUM_STR_VALUES), min_size=1, max_size=4, unique_by=lambda v: v.upper()))
+        pool = ENUM_STR_VALUES + (ENUM_QUOTED_VALUES if prof.get("quote_enum_values") else [])
+        vals = draw(st.lists(st.sampled_from(pool), min_size=1, max_size=4, unique_by=lambda v: v.upper()))
     else:
         vals = draw(st.lists(st.integers(-5, 20), min_size=1, max_size=4, unique=True))
     has_null = bool(allow_null and prof["null_in_enum"] and prof["nullable"] and draw(st.integers(0, 4)) == 0)
